@@ -1860,6 +1860,28 @@ def c19_cases(tier, seed):
         c.meta["printers"] = nthreads
         c.meta["prints"] = prints
         cases.append(c)
+    # bursts: several threads are told to print at once, without waiting for one another (the editor may find
+    # more than one wake-up pending); which message comes first is not determined, the oracle does not care
+    for _ in range(n // 3):
+        mode = rng.choice(["emacs", "vi"])
+        nthreads = rng.choice([2, 3])
+        cmds = gen_c19(rng, mode) + [Cmd(["F12"], "noop"), Cmd(["Enter"], "enter")]
+        chunks = [b"".join(p_tty.key_bytes(k) for k in cmd.keys) for cmd in cmds]
+        bursts, serial = {}, 0
+        for k, cmd in enumerate(cmds):
+            if cmd.tag != "enter" and rng.random() < 0.35:
+                lst = []
+                for _ in range(rng.choice([2, 3, 4, 6])):
+                    t = rng.randrange(nthreads)
+                    lst.append((t, "<%d:%d:%s>" % (t, serial, rng.choice(["burst", "日本", "x" * 30]))))
+                    serial += 1
+                bursts[k] = lst
+        c = script_case(cmds, mode=mode, chunks=chunks, cols=rng.choice([80, 40]), prompt="> ",
+                        timeout=0 if mode == "vi" else rng.choice(["none", 0]), reads=2)
+        c.meta["printers"] = nthreads
+        c.meta["prints"] = {}
+        c.meta["bursts"] = bursts
+        cases.append(c)
     return cases
 
 
@@ -1867,7 +1889,9 @@ def eval_c19(res, cases_out, stream, width):
     stats = {"messages": 0, "scripts_with_messages": 0, "reads": 0, "multi_row_messages": 0}
     for (c, impl, model, raw) in cases_out:
         t = Trace(c, impl)
-        prints = c.meta["prints"]
+        prints = dict(c.meta["prints"])
+        for k, lst in (c.meta.get("bursts") or {}).items():
+            prints[k] = list(prints.get(k, [])) + lst
         allmsgs = [m for k in sorted(prints) for m in prints[k]]
         if allmsgs:
             stats["scripts_with_messages"] += 1
